@@ -72,13 +72,15 @@ Definition resolve_parent (t : table) (d m : string) : option string :=
    the running body is written in — `self::` resolves from it, `parent::` from its parent. *)
 Record sctx := { s_run : string; s_lexc : string }.
 Definition spec_hop (t : table) (x : sctx) (h : hop) : option sctx :=
-  option_map (fun d => {| s_run := s_run x; s_lexc := d |})
-    match h with
-    | HThis m => resolve t (s_run x) m
-    | HParent m => resolve_parent t (s_lexc x) m
-    | HSelf s => resolve t (s_lexc x) s
-    | HStatic s => resolve t (s_run x) s
-    end.
+  match h with
+  | HNamed c s =>
+      (* a call that names a class is not a forwarding call: from there on static:: is that class *)
+      option_map (fun d => {| s_run := c; s_lexc := d |}) (resolve t c s)
+  | HThis m => option_map (fun d => {| s_run := s_run x; s_lexc := d |}) (resolve t (s_run x) m)
+  | HParent m => option_map (fun d => {| s_run := s_run x; s_lexc := d |}) (resolve_parent t (s_lexc x) m)
+  | HSelf s => option_map (fun d => {| s_run := s_run x; s_lexc := d |}) (resolve t (s_lexc x) s)
+  | HStatic s => option_map (fun d => {| s_run := s_run x; s_lexc := d |}) (resolve t (s_run x) s)
+  end.
 Fixpoint spec_hops (t : table) (x : sctx) (hs : list hop) : option (list string) :=
   match hs with
   | [] => Some []
@@ -165,6 +167,7 @@ Fixpoint hops_ok (t : table) (inst : bool) (x : sctx) (hs : list hop) : bool :=
       | HThis _ => inst
       | HParent _ => match parent_of t (s_lexc x) with Some _ => true | None => false end
       | HSelf s | HStatic s => static_name t s
+      | HNamed c s => static_name t s && is_class t c
       end &&
       match spec_hop t x h with
       | Some x' => hops_ok t (match h with HThis _ | HParent _ => inst | _ => false end) x' r
